@@ -410,6 +410,30 @@ func cssHTMLEsc(c string) []string {
 
 func isWsGo(c string) bool { return cIsWs(c) || c == "UWS" || c == "VT" }
 
+// model variants (SinksCss.tla constants FontFix / BgFix): FALSE = as coded at the pin, TRUE = the proposed repairs.
+// The check selects them by probing the real sanitisers, so that the model the real code is compared with is
+// the one it conforms to.
+var fontFix, bgFix bool
+
+func trimCSS(s []string) []string {
+	for len(s) > 0 && cIsWs(s[0]) {
+		s = s[1:]
+	}
+	for len(s) > 0 && cIsWs(s[len(s)-1]) {
+		s = s[:len(s)-1]
+	}
+	return s
+}
+
+func containsAny(s []string, set ...string) bool {
+	for _, c := range s {
+		if inSet(c, set...) {
+			return true
+		}
+	}
+	return false
+}
+
 func trimSyms(s []string) []string {
 	for len(s) > 0 && isWsGo(s[0]) {
 		s = s[1:]
@@ -583,6 +607,9 @@ func modelAccept(cls string, v []string) accResult {
 				if hasSuffix(f, cDQ) {
 					b = "FontFamily.QuotedSegment"
 				}
+				if fontFix && (len(f) < 2 || containsAny(f[1:len(f)-1], cDQ, cBSL, "<", "CTL", "VT", "TAB", "LF", "CR", "FF")) {
+					b = ""
+				}
 			} else if len(f) >= 2 && cIsLetter(f[0]) {
 				b = "FontFamily.GenericName"
 				for _, c := range f[1:] {
@@ -607,6 +634,9 @@ func modelAccept(cls string, v []string) accResult {
 		var r accResult
 		for _, seg := range splitComma(v) {
 			u := trimSyms(seg)
+			if bgFix {
+				u = trimCSS(seg)
+			}
 			b := ""
 			var inner []string
 			switch {
@@ -624,6 +654,16 @@ func modelAccept(cls string, v []string) accResult {
 				b, inner = "BackgroundImage.UrlBare", u[4:]
 				if hasSuffix(inner, ")") {
 					inner = inner[:len(inner)-1]
+				}
+			}
+			if bgFix && b != "" {
+				switch {
+				case b == "BackgroundImage.UrlDQ" && (len(u) < 7 || containsAny(inner, cDQ, cBSL, "CTL", "VT", "LF", "CR", "FF")):
+					b = ""
+				case b == "BackgroundImage.UrlSQ" && (len(u) < 7 || containsAny(inner, "'", cBSL, "CTL", "VT", "LF", "CR", "FF")):
+					b = ""
+				case b == "BackgroundImage.UrlBare" && containsAny(inner, "SP", "TAB", "LF", "CR", "FF", cDQ, "'", "(", ")", cBSL, "CTL", "VT", "UWS"):
+					b = ""
 				}
 			}
 			if b == "" {
